@@ -1,7 +1,7 @@
 /-!
 # Lewis electron counting for p-block atoms — written from the periodic table, not from chython
 
-An atom of group 13–17 has `e = group − 10` valence electrons, minus its formal charge. In a Lewis structure
+A main-group atom has `e` valence electrons (group number, or group − 10 for groups 13–18), minus its formal charge. In a Lewis structure
 every unit of bond order (to a neighbour or to a hydrogen) uses one of them, an unpaired (radical) electron one
 more, and the rest are lone pairs. Hence for total valence `V` (Σ bond orders + hydrogens):
 
@@ -16,13 +16,17 @@ rule (a cation of group 15–17 / an anion of group 13 gains one valence, an ani
 -/
 namespace ChythonModel.Spec.Lewis
 
-/-- (atomic number, valence electrons) for groups 13–17, periods 2–6 (Bi is left out, see design/C04.md) -/
+/-- (atomic number, valence electrons) of every main-group element except hydrogen: groups 1, 2 and 13–18, periods 2–7
+    (`e` = group number for groups 1–2, group − 10 for 13–18, 2 for He). Bi is left out, see design/C04.md. -/
 def valenceElectrons : List (Nat × Nat) :=
-  [(5, 3), (13, 3), (31, 3), (49, 3), (81, 3),
-   (6, 4), (14, 4), (32, 4), (50, 4), (82, 4),
-   (7, 5), (15, 5), (33, 5), (51, 5),
-   (8, 6), (16, 6), (34, 6), (52, 6), (84, 6),
-   (9, 7), (17, 7), (35, 7), (53, 7), (85, 7)]
+  [(3, 1), (11, 1), (19, 1), (37, 1), (55, 1), (87, 1),
+   (4, 2), (12, 2), (20, 2), (38, 2), (56, 2), (88, 2),
+   (5, 3), (13, 3), (31, 3), (49, 3), (81, 3), (113, 3),
+   (6, 4), (14, 4), (32, 4), (50, 4), (82, 4), (114, 4),
+   (7, 5), (15, 5), (33, 5), (51, 5), (115, 5),
+   (8, 6), (16, 6), (34, 6), (52, 6), (84, 6), (116, 6),
+   (9, 7), (17, 7), (35, 7), (53, 7), (85, 7), (117, 7),
+   (2, 2), (10, 8), (18, 8), (36, 8), (54, 8), (86, 8), (118, 8)]
 
 /-- the electron-count condition for total valence `V` of an atom with `e` valence electrons, charge `q`, radical `r` -/
 def ok (e : Nat) (q : Int) (r : Bool) (V : Nat) : Bool :=
